@@ -429,7 +429,7 @@ def gen_runs(ctx, prop):
 
     if not ctx.thorough:
         R("one_full_dev2", MaxItems=1, MaxDev=2, PoolA=full, Feat={"trail", "section", "annot", "block", "target", "comment", "hoist", "c3"}, Knobs=K)
-        R("one_headers", MaxItems=2, MaxDev=1, PoolA={"w", "l3"}, PoolB={"w"}, HeaderMode="all", HeaderMaxBody=2, Feat={"comment", "block", "hoist"},
+        R("one_headers", MaxItems=2, MaxDev=1, PoolA={"w", "l3", "zoct"}, PoolB={"w"}, HeaderMode="all", HeaderMaxBody=2, Feat={"comment", "block", "hoist"},
           Knobs={"alt", "ind", "final", "endOmit", "envOmit"})
         R("two_core_dev1", MaxItems=2, MaxDepth=1, MaxDev=1, PoolA=core, PoolB=micro, Feat=feat_all, Knobs=K)
         R("meta_values", MaxItems=1, MaxDev=1, PoolA={"w"}, PoolC=core, HeaderMode="metavals", HeaderMaxBody=1, Knobs={"ind", "final"})
